@@ -14,16 +14,16 @@ VERIF = os.path.dirname(os.path.dirname(os.path.abspath(__file__)))
 MUTANTS = [
     ("term_sends_kill", "process.posix.c", "kill(process, SIGTERM)", "kill(process, SIGKILL)", "process_terminate", "C07/process_terminate.sends_sigterm_once"),
     ("kill_sends_term", "process.posix.c", "kill(process, SIGKILL)", "kill(process, SIGTERM)", "process_kill", "C07/process_kill.sends_sigkill_once"),
-    ("wait_wnohang", "process.posix.c", "waitpid(process, &status, 0)", "waitpid(process, &status, WNOHANG)", "process_wait", "C01/process_wait.status_means_reaped"),
+    ("wait_wnohang", "process.posix.c", "waitpid(process, &status, 0)", "waitpid(process, &status, WNOHANG)", "process_wait", "C01+INV/process_wait.status_means_reaped"),
     ("status_signal_offset", "process.posix.c", "WTERMSIG(status) + 128", "WTERMSIG(status) + 127", "parse_status", "C01/parse_status.signal_plus_128"),
     ("status_exit_mask", "process.posix.c", "WIFEXITED(status) ? WEXITSTATUS(status)", "WIFEXITED(status) ? (WEXITSTATUS(status) & 0x7f)", "parse_status", "C01/parse_status.exit_code_exact"),
     ("options_drop_handle_check", "options.c", "    ASSERT_EINVAL(redirect->handle);\n", "", "parse_options", "C13/parse_options.conflicts_rejected"),
     ("path_direction_swapped", "redirect.posix.c", "stream == REPROC_STREAM_IN ? O_RDONLY : O_WRONLY", "stream == REPROC_STREAM_IN ? O_WRONLY : O_RDONLY", "redirect_init", "C10/redirect_init.path_opened_in_right_direction"),
     ("pipe_nonblocking_wrong_end", "redirect.c", "r = pipe_nonblocking(stream == REPROC_STREAM_IN ? pipe[1] : pipe[0],", "r = pipe_nonblocking(stream == REPROC_STREAM_IN ? pipe[0] : pipe[1],", "redirect_init", "C17/redirect_init.pipe_parent_end_mode_child_end_blocking"),
-    ("pipe_ends_swapped_for_stdin", "redirect.c", "*parent = stream == REPROC_STREAM_IN ? pipe[1] : pipe[0];", "*parent = stream == REPROC_STREAM_ERR ? pipe[1] : pipe[0];", "redirect_init", "C10/redirect_init.pipe_parent_holds_other_end"),
+    ("pipe_ends_swapped_for_stdin", "redirect.c", "*parent = stream == REPROC_STREAM_IN ? pipe[1] : pipe[0];", "*parent = stream == REPROC_STREAM_ERR ? pipe[1] : pipe[0];", "redirect_init", "C10+INV/redirect_init.pipe_parent_holds_other_end"),
     ("destroy_closes_user_handle", "redirect.c", "    case REPROC_REDIRECT_PATH:\n      handle_destroy(child);", "    case REPROC_REDIRECT_PATH:\n    case REPROC_REDIRECT_HANDLE:\n      handle_destroy(child);", "redirect_destroy", "C05/redirect_destroy.never_closes_user_or_parent_streams"),
     ("path_without_cloexec", "redirect.posix.c", "mode | O_CREAT | O_CLOEXEC", "mode | O_CREAT", "redirect_init", "C11/redirect_init.created_descriptors_close_on_exec"),
-    ("pipe_init_leaks_on_cloexec_failure", "pipe.posix.c", "finish:\n  pipe_destroy(pair[0]);\n  pipe_destroy(pair[1]);", "finish:\n  pipe_destroy(pair[0]);", "pipe_init", "C05/pipe_init.failure_leaves_no_descriptor"),
+    ("pipe_init_leaks_on_cloexec_failure", "pipe.posix.c", "finish:\n  pipe_destroy(pair[0]);\n  pipe_destroy(pair[1]);", "finish:\n  pipe_destroy(pair[0]);", "pipe_init", "C05+INV/pipe_init.failure_leaves_no_descriptor"),
     ("pipe_read_empty_request_is_eof", "pipe.posix.c", "if (r == 0 && size > 0) {", "if (r == 0) {", "pipe_read", "C02/pipe_read.epipe_only_at_end_of_stream"),
     ("cloexec_zero_flags_is_error", "handle.posix.c", "  r = fcntl(handle, F_GETFD, 0);\n  if (r < 0) {", "  r = fcntl(handle, F_GETFD, 0);\n  if (r <= 0) {", "handle_cloexec", "C04/handle_cloexec.fails_only_when_the_os_refused"),
     ("pipe_read_eof_as_zero", "pipe.posix.c", "    return -EPIPE;\n  }\n\n  return r < 0 ? -errno : r;", "    return 0;\n  }\n\n  return r < 0 ? -errno : r;", "pipe_read", "C02/pipe_read.eof_is_epipe"),
@@ -63,12 +63,12 @@ MUTANTS = [
     ("start_env_not_installed", "process.posix.c", "    environ = env;\n", "", "process_start_child", "C03/exec.environment_is_parent_then_extra"),
     ("start_env_ignores_behavior", "process.posix.c", "options.env.behavior == REPROC_ENV_EMPTY ? NULL", "options.env.behavior == REPROC_ENV_EXTEND ? NULL", "process_start_child", "C03/exec.environment_is_parent_then_extra"),
     ("start_program_not_prefixed", "process.posix.c", "options.working_directory && path_is_relative(argv[0])", "options.working_directory && !path_is_relative(argv[0])", "process_start_child", "C03+C04/exec.program_is_argv0_or_cwd_prefixed"),
-    ("start_pid_not_stored", "process.posix.c", "  *process = child;\n  r = 0;", "  r = 0;", "process_start_parent", "C04+C06/process_start.success_is_live_child_that_executed"),
-    ("start_child_failure_not_reaped", "process.posix.c", "    do {\n      r = waitpid(child, NULL, 0);\n    } while (r < 0 && errno == EINTR);\n    r = r < 0 ? -errno : -child_errno;\n    goto finish;", "    r = -child_errno;\n    goto finish;", "process_start_parent", "C04+C05+C06/process_start.failure_leaves_no_child_and_no_pid"),
+    ("start_pid_not_stored", "process.posix.c", "  *process = child;\n  r = 0;", "  r = 0;", "process_start_parent", "C04+C06+INV/process_start.success_is_live_child_that_executed"),
+    ("start_child_failure_not_reaped", "process.posix.c", "    do {\n      r = waitpid(child, NULL, 0);\n    } while (r < 0 && errno == EINTR);\n    r = r < 0 ? -errno : -child_errno;\n    goto finish;", "    r = -child_errno;\n    goto finish;", "process_start_parent", "C04+C05+C06+INV/process_start.failure_leaves_no_child_and_no_pid"),
     ("setup_input_blocking", "reproc.c", "  r = pipe_nonblocking(*pipe, true);\n  if (r < 0) {\n    return r;\n  }\n", "", "setup_input", "C17/os.write.input_nonblocking"),
     ("setup_input_restarts", "reproc.c", "r = pipe_write(*pipe, data + written, size - written);", "r = pipe_write(*pipe, data, size - written);", "setup_input", "C02/os.write.input_cursor"),
-    ("setup_input_keeps_closed_stdin_number", "reproc.c", "  *pipe = pipe_destroy(*pipe);\n\n  return 0;\n}\n\nstatic int expiry", "  pipe_destroy(*pipe);\n\n  return 0;\n}\n\nstatic int expiry", "setup_input", "C02+C09+C14/setup_input.stdin_closed_after_input"),
-    ("setup_input_keeps_stdin_open", "reproc.c", "  *pipe = pipe_destroy(*pipe);\n\n  return 0;\n}\n\nstatic int expiry", "  return 0;\n}\n\nstatic int expiry", "setup_input", "C02+C09+C14/setup_input.stdin_closed_after_input"),
+    ("setup_input_keeps_closed_stdin_number", "reproc.c", "  *pipe = pipe_destroy(*pipe);\n\n  return 0;\n}\n\nstatic int expiry", "  pipe_destroy(*pipe);\n\n  return 0;\n}\n\nstatic int expiry", "setup_input", "C02+INV/setup_input.stdin_closed_after_input"),
+    ("setup_input_keeps_stdin_open", "reproc.c", "  *pipe = pipe_destroy(*pipe);\n\n  return 0;\n}\n\nstatic int expiry", "  return 0;\n}\n\nstatic int expiry", "setup_input", "C02+INV/setup_input.stdin_closed_after_input"),
     ("win_join_forgets_separator_size", "process.windows.c", "      joined_size++; // Count whitespace.", "      ;", "win_argv_join", "C18/argv_join.buffer_has_room_for_every_argument"),
     ("win_quote_size_undercounts_backslashes", "process.windows.c", "      size += num_backslashes * 2 + 2;", "      size += num_backslashes * 2 + 1;", "win_argument_quoting", "C18/quote.bytes_written_equal_predicted_size"),
     ("win_quote_odd_backslashes", "process.windows.c", "      memset(dest, '\\\\', num_backslashes * 2 + 1);\n      dest += num_backslashes * 2 + 1;", "      memset(dest, '\\\\', num_backslashes * 2);\n      dest += num_backslashes * 2;", "win_argument_quoting", "C18/quote.argument_survives_standard_parsing"),
@@ -92,7 +92,7 @@ MUTANTS = [
     ("drain_skips_close_notification", "drain.c", "    if (r < 0 && r != REPROC_EPIPE) {\n      break;\n    }", "    if (r == REPROC_EPIPE) {\n      continue;\n    }\n    if (r < 0) {\n      break;\n    }", "reproc_drain", "C16/drain.loop_invariant_preserved_by_an_arbitrary_iteration"),
     ("drain_ignores_sink_failure", "drain.c", "    r = sink.function(stream, buffer, bytes_read, sink.context);\n    if (r != 0) {\n      break;\n    }", "    r = sink.function(stream, buffer, bytes_read, sink.context);\n    if (r < 0) {\n      break;\n    }", "reproc_drain", "C16/drain.loop_invariant_preserved_by_an_arbitrary_iteration"),
     ("drain_deadline_as_success", "drain.c", "      r = REPROC_ETIMEDOUT;\n      break;", "      r = 0;\n      break;", "reproc_drain", "C16/drain.zero_only_when_both_output_streams_are_closed"),
-    ("start_error_pipe_read_not_retried", "process.posix.c", "  do {\n    r = (int) read(pipe.read, &child_errno, sizeof(child_errno));\n  } while (r < 0 && errno == EINTR);", "  r = (int) read(pipe.read, &child_errno, sizeof(child_errno));", "process_start_parent", "C04+C06/process_start.success_is_live_child_that_executed"),
+    ("start_error_pipe_read_not_retried", "process.posix.c", "  do {\n    r = (int) read(pipe.read, &child_errno, sizeof(child_errno));\n  } while (r < 0 && errno == EINTR);", "  r = (int) read(pipe.read, &child_errno, sizeof(child_errno));", "process_start_parent", "C04+C06+INV/process_start.success_is_live_child_that_executed"),
     ("fork_waitpid_not_retried", "process.posix.c", "      do {\n        r = waitpid(child, NULL, 0);\n      } while (r < 0 && errno == EINTR);", "      r = waitpid(child, NULL, 0);", "process_fork_parent", "C04+C05/process_fork.failure_leaves_no_child"),
     ("redirect_fallback_not_recorded", "redirect.c", "          redirect->type = REPROC_REDIRECT_DISCARD;", "          ;", "redirect_init", "C05/redirect_init.null_device_fallback_is_recorded_for_release"),
     ("read_wrong_stream", "reproc.c", "pipe_type *pipe = stream == REPROC_STREAM_OUT ? &process->pipe.out\n                                                : &process->pipe.err;", "pipe_type *pipe = stream == REPROC_STREAM_OUT ? &process->pipe.err\n                                                : &process->pipe.out;", "reproc_read", "C02/reproc_read.one_read_on_that_stream"),
